@@ -150,12 +150,25 @@ package segment
 //@   loop 1 invariant newSize >= 65536 && newSize <= 0x40000000000 && newSize % 65536 == 0
 //@   loop 1 decreases needCap - newSize
 
-//@ -- Representation invariant of the tail writer (single writer, under the WAL write lock).
+//@ -- Representation invariant of the tail writer (single writer, under the WAL write lock):
+//@ -- between calls every recorded entry offset belongs to a committed entry, so
+//@ -- commitIdx is exactly the index of the last offset (0 when there is none).
 //@ predicate WInv(w) = w.info.BaseIndex >= 1 && w.info.BaseIndex <= 0x7fffffff00000000
 //@    && len(av(w.offsets)) <= 0x20000000
-//@    && (w.commitIdx == 0 || (w.commitIdx >= w.info.BaseIndex && w.commitIdx - w.info.BaseIndex < uint64(len(av(w.offsets)))))
+//@    && w.commitIdx == ite(len(av(w.offsets)) > 0, w.info.BaseIndex + uint64(len(av(w.offsets))) - 1, 0)
 //@    && w.writer.crc == crc(0, w.writer.commitBuf, 0, len(w.writer.commitBuf))
 //@    && w.wf != nil
+
+//@ -- The tail writer as the WAL sees it (types.SegmentWriter, ghost fields base,
+//@ -- last, sealed, indexStart of the interface-level contracts in package types):
+//@ -- each ghost field is defined here as a function of the concrete writer, and
+//@ -- the methods below are proved to satisfy the interface contracts read through
+//@ -- these definitions (`refines`), so the WAL-level proofs rest on the code, not
+//@ -- on a reading of it.
+//@ coupling Writer.base = self.info.BaseIndex
+//@ coupling Writer.last = self.commitIdx
+//@ coupling Writer.sealed = self.writer.indexStart != 0
+//@ coupling Writer.indexStart = self.writer.indexStart
 
 //@ func (*Writer).appendFrame
 //@   props C09 C10 C15
@@ -236,6 +249,7 @@ package segment
 
 //@ func (*Writer).Append
 //@   props C01 C05 C10 C15
+//@   refines types.SegmentWriter.Append
 //@   requires WInv(w)
 //@   requires len(av(w.offsets)) + len(entries) <= 0x20000000
 //@   assigns w.writer.commitBuf, w.writer.crc, w.writer.indexStart, w.writer.writeOffset, w.offsets, w.commitIdx, w.wf.dirty, w.wf.dirLinked,
@@ -259,6 +273,7 @@ package segment
 
 //@ func (*Writer).ForceSeal
 //@   props C01 C04 C10
+//@   refines types.SegmentWriter.ForceSeal
 //@   requires WInv(w)
 //@   assigns w.writer.commitBuf, w.writer.crc, w.writer.indexStart, w.writer.writeOffset, w.commitIdx, w.wf.dirty, w.wf.dirLinked,
 //@      w.writer.commitBuf[len(w.writer.commitBuf):cap(w.writer.commitBuf)]
@@ -271,14 +286,17 @@ package segment
 
 //@ func (*Writer).Sealed
 //@   props C01 C03
+//@   refines types.SegmentWriter.Sealed
 //@   ensures result2 == nil && (result0 <==> w.writer.indexStart != 0) && (result0 ==> result1 == w.writer.indexStart) && (!result0 ==> result1 == 0)
 
 //@ func (*Writer).LastIndex
 //@   props C05
+//@   refines types.SegmentWriter.LastIndex
 //@   ensures result == w.commitIdx
 
 //@ func (*Writer).OffsetForFrame
 //@   props C05 C11
+//@   refines segment.tailWriter.OffsetForFrame
 //@   requires WInv(w)
 //@   ensures[C05.tail-notfound] (idx < w.info.BaseIndex || idx < w.info.MinIndex || idx > w.commitIdx) ==> result1 == types.ErrNotFound
 //@   ensures[C05.tail-found] !(idx < w.info.BaseIndex || idx < w.info.MinIndex || idx > w.commitIdx) ==> result1 == nil && result0 == av(w.offsets)[int(idx - w.info.BaseIndex)]
@@ -395,6 +413,7 @@ package segment
 
 //@ func (*Reader).GetLog
 //@   props C05 C11
+//@   refines types.SegmentReader.GetLog
 //@   requires r.rf != nil
 //@   ensures result1 == nil ==> result0 != nil
 
@@ -417,6 +436,7 @@ package segment
 
 //@ func (*Filer).Open
 //@   props C11
+//@   refines types.SegmentFiler.Open
 //@   requires f.vfs != nil
 //@   assigns g_open
 //@   ensures[C11.sealed-header] result1 == nil ==> result0 != nil && result0.rf.size >= 32 && LE32(result0.rf.data, 0) == 0x58eb6b0d
@@ -431,6 +451,7 @@ package segment
 
 //@ func (*Filer).Create
 //@   props C03 C09 C13
+//@   refines types.SegmentFiler.Create
 //@   requires f.vfs != nil && info.BaseIndex <= 0x7fffffff00000000
 //@   assigns g_open
 //@   ensures[C13.create-base-nonzero] info.BaseIndex == 0 ==> result1 != nil
@@ -440,6 +461,7 @@ package segment
 
 //@ func (*Filer).RecoverTail
 //@   props C02 C03
+//@   refines types.SegmentFiler.RecoverTail
 //@   requires f.vfs != nil && info.BaseIndex >= 1 && info.BaseIndex <= 0x7fffffff00000000
 //@   assigns g_open, g_scanLast, g_scanSize
 //@   ensures[C03.recovered-appendable] result1 == nil ==> result0 != nil && WInv(result0)
